@@ -249,6 +249,19 @@ impl Family for C18Family {
             if ra != rb {
                 j.fail("result-differs", format!("op a{}#{} ({}): direct call gives {}, the call through Ctap2Api gives {}", a.actor, a.idx, short_result(&a.result).split(':').next().unwrap_or(""), &ra[..ra.len().min(160)], &rb[..rb.len().min(160)]));
             }
+            // what the store was asked to write (a store may keep any of the arguments)
+            let writes = |r: &crate::world::RunRecord, o: &crate::world::OpRecord| -> Vec<String> {
+                r.events_of(o.actor, o.idx)
+                    .filter_map(|e| match &e.ev {
+                        crate::world::Ev::Save { .. } | crate::world::Ev::Update { .. } => Some(format!("{:?}", e.ev)),
+                        _ => None,
+                    })
+                    .collect()
+            };
+            let (wa, wb) = (writes(&rec, a), writes(&rec2, b));
+            if wa != wb {
+                j.fail("store-effect-differs", format!("op a{}#{}: the direct call asked the store to write {}, the call through Ctap2Api {}", a.actor, a.idx, &format!("{wa:?}").chars().take(400).collect::<String>(), &format!("{wb:?}").chars().take(400).collect::<String>()));
+            }
             if a.after != b.after {
                 j.fail("store-effect-differs", format!("op a{}#{}: store after the direct call {:?}, after the call through Ctap2Api {:?}", a.actor, a.idx, a.after, b.after));
             }
